@@ -376,7 +376,10 @@ namespace smt
             if (constrs[i]->simplify())
                 constrs[i]->remove();
             else
+            { // the identifier of a constraint is its position in 'constrs' (the copy constructor relies on it)..
+                constrs[i]->id = j;
                 constrs[j++] = constrs[i];
+            }
         constrs.resize(j);
         return true;
     }
